@@ -20,7 +20,10 @@ Counter = collections.Counter
 OP_BUDGET = 80000
 SCRATCH = os.environ.get('VERIF_SCRATCH', '/var/tmp/desper-verif')
 NAMES = ['a', 'b', 'a.txt', 'a.png', 'b.txt', 'c', 'd.e.txt', 'sub', 'sub.d',
-         'empty', 'b.png', 'e.TXT', 'a.json', 'f.tar.gz', 'sub2']
+         'empty', 'b.png', 'e.TXT', 'a.json', 'f.tar.gz', 'sub2',
+         # legal names that mean something to glob
+         'a[1]', 'x*y', 'q?.txt', '[ab]', 'a1']
+MAGIC_DIRS = ('a[1]', 'x*y', '[ab]')
 _counter = [0]
 
 
@@ -38,17 +41,25 @@ class GlobShim:
         if not (recursive and pattern.endswith('**')):
             return real_glob.iglob(pattern, recursive=recursive, **kw)
         base = pattern[:-2]
-        out = [base]
+        # the directory part is resolved by glob itself (magic characters
+        # that were not escaped mean what they mean to glob): the entries of
+        # its result that end with a separator are the matched roots; only
+        # the order of the names inside each directory is the simulator's
+        real_list = list(real_glob.iglob(pattern, recursive=True))
+        roots = it.order(sorted(p for p in real_list if p.endswith(os.sep)))
+        out = list(roots)
 
         def walk(d):
             names = [n for n in os.listdir(d) if not n.startswith('.')]
             for n in it.order(sorted(names)):
                 p = os.path.join(d, n)
                 out.append(p)
-                if os.path.isdir(p):
+                if os.path.isdir(p) and not os.path.islink(p):
                     walk(p)
-        walk(base.rstrip(os.sep))
-        real = set(real_glob.iglob(pattern, recursive=True))
+        for r in roots:
+            if os.path.isdir(r):
+                walk(r.rstrip(os.sep))
+        real = set(real_list)
         if set(out) != real:
             raise Violation('C16', 'shim_mismatch', f'listing seam disagrees '
                             f'with glob: {sorted(set(out) ^ real)}')
@@ -79,6 +90,15 @@ class Interp:
             p = os.path.join(self.root_dir, rel)
             if kind == 'd':
                 os.makedirs(p, exist_ok=True)
+            elif kind in ('l', 'p'):
+                # neither a file nor a directory: a dangling symbolic link,
+                # a named pipe
+                os.makedirs(os.path.dirname(p), exist_ok=True)
+                if kind == 'l':
+                    os.symlink('no-such-target', p)
+                else:
+                    os.mkfifo(p)
+                self.probes['entry_neither_file_nor_directory'] += 1
             else:
                 os.makedirs(os.path.dirname(p), exist_ok=True)
                 open(p, 'w').close()
@@ -290,6 +310,24 @@ class Interp:
             if listing is None:
                 self.fail('missing_key', f'rule {i} ({r["path"]!r}) was '
                           f'never listed')
+            # the files under the rule's directory, taken literally
+            literal = set()
+            for dp, dns, fns in os.walk(full):
+                dns[:] = [n for n in dns if not n.startswith('.')]
+                for n in dns + fns:
+                    if not n.startswith('.'):
+                        literal.add(os.path.normpath(os.path.join(dp, n)))
+            listed = {os.path.normpath(p) for p in listing} - {
+                os.path.normpath(full)}
+            if listed != literal:
+                lost = sorted(os.path.relpath(p, self.root_dir)
+                              for p in literal - listed)
+                alien = sorted(os.path.relpath(p, self.root_dir)
+                               for p in listed - literal)
+                self.fail('missing_key' if lost else 'extra_key',
+                          f'rule {i} names the directory {r["path"]!r}: '
+                          f'entries never looked at {lost}, entries taken '
+                          f'from elsewhere {alien}')
             for p in listing:
                 key = self.key_of(p, trim)
                 if key == '.':
@@ -459,19 +497,23 @@ def gen_tree(rng):
             continue
         name = rng.choice(NAMES)
         is_dir = ('.' not in name or name == 'sub.d') and rng.random() < (
+            .9 if name in MAGIC_DIRS else
             .8 if len(dirs) == 1 else .45)
         sib = taken.setdefault(d, set())
         # one name per directory; a file whose trimmed key equals a sibling
         # directory (or the reverse) is not generated (DESIGN.md section 5)
         if name in {s for s, k in sib}:
             continue
-        if is_dir and any(stem(s) == name for s, k in sib if k == 'f'):
+        if is_dir and any(stem(s) == name for s, k in sib if k != 'd'):
             continue
         if not is_dir and any(s == stem(name) for s, k in sib if k == 'd'):
             continue
         rel = f'{d}/{name}' if d else name
-        sib.add((name, 'd' if is_dir else 'f'))
-        entries.append([rel, 'd' if is_dir else 'f'])
+        kind = 'd' if is_dir else 'f'
+        if not is_dir and rng.random() < .06:
+            kind = rng.choice(['l', 'p'])
+        sib.add((name, kind))
+        entries.append([rel, kind])
         if is_dir:
             dirs.append(rel)
     return entries
@@ -598,7 +640,7 @@ INFO = {'C16': {
         'no I/O errors are injected: no property speaks about them',
         'the conflict clauses are judged on what the recording factory saw '
         'in the map at the instant each handle was built']}}
-PROBES = {'C16': ['file_became_directory', 'conflict.trim', 'conflict.preexisting', 'conflict.repeat',
+PROBES = {'C16': ['file_became_directory', 'entry_neither_file_nor_directory', 'conflict.trim', 'conflict.preexisting', 'conflict.repeat',
                   'conflict.repeat_rule', 'three_way_conflict',
                   'ext_filter_with_nested_dir', 'empty_dir', 'rule_is_file',
                   'rule_missing', 'per_call_override',
